@@ -53,6 +53,15 @@ impl Display for DaySelector {
     fn fmt(&self, f: &mut std::fmt::Formatter<'_>) -> std::fmt::Result {
         if !(self.year.is_empty() && self.monthday.is_empty() && self.week.is_empty()) {
             write_selector(f, &self.year)?;
+
+            // A single plain year directly followed by a monthday selector would be read back as the
+            // year of its first range only: write it as the range `y-y`.
+            if let ([year], Some(first)) = (self.year.as_slice(), self.monthday.first()) {
+                if year.range.start() == year.range.end() && year.step == 1 && !first.starts_with_year() {
+                    write!(f, "-{}", year.range.end().deref())?;
+                }
+            }
+
             write_selector(f, &self.monthday)?;
 
             if !self.week.is_empty() {
@@ -127,6 +136,16 @@ pub enum MonthdayRange {
         start: (Date, DateOffset),
         end: (Date, DateOffset),
     },
+}
+
+impl MonthdayRange {
+    /// `true` if the string form starts with a year.
+    fn starts_with_year(&self) -> bool {
+        match self {
+            Self::Month { year, .. } => year.is_some(),
+            Self::Date { start, .. } => start.0.has_year(),
+        }
+    }
 }
 
 impl Display for MonthdayRange {
